@@ -171,34 +171,60 @@ def readExpr (strict : Bool) (s : Str) : Option Expr := do
   let toks ← tokenize s
   readExprToks strict toks
 
-/-- `e, e, e)` at the end of the source -/
-def pArgs : Nat → Bool → List MTok → Option (List Expr)
-  | 0, _, _ => none
-  | f + 1, st, toks =>
+/-- `e, e, k=e)` at the end of the source: positional arguments, then keyword arguments
+    (`kw`: a keyword argument was seen — a positional one behind it is a syntax error) -/
+def pArgs : Nat → Bool → Bool → List MTok → Option (List Arg)
+  | 0, _, _, _ => none
+  | f + 1, st, _, .name k :: .sym '=' :: toks =>
       match pExpr (2 * toks.length + 2) st toks with
-      | some (e, [.sym ')']) => some [e]
+      | some (e, [.sym ')']) => some [(some k, e)]
       | some (e, .sym ',' :: r) =>
-          match pArgs f st r with
-          | some es => some (e :: es)
+          match pArgs f st true r with
+          | some es => some ((some k, e) :: es)
+          | none => none
+      | _ => none
+  | f + 1, st, kw, toks =>
+      if kw then none else
+      match pExpr (2 * toks.length + 2) st toks with
+      | some (e, [.sym ')']) => some [(none, e)]
+      | some (e, .sym ',' :: r) =>
+          match pArgs f st false r with
+          | some es => some ((none, e) :: es)
           | none => none
       | _ => none
 
-/-- the source of `${…}`: a macro call `f(a, b)` or an expression -/
-def readXExpr (strict : Bool) (s : Str) : Option XExpr := do
-  let toks ← tokenize s
+/-- the tokens of `${…}`: a macro call `f(a, b)` or an expression -/
+def readXToks (strict : Bool) (toks : List MTok) : Option XExpr :=
   match toks with
   | .name f :: .sym '(' :: r =>
       if f = kwLen then (readExprToks strict toks).map .pure
       else match r with
         | [.sym ')'] => some (.call (mkVar strict f) [])
-        | _ => (pArgs (r.length + 1) strict r).map (.call (mkVar strict f))
+        | _ => (pArgs (r.length + 1) strict false r).map (.call (mkVar strict f))
   | _ => (readExprToks strict toks).map .pure
 
-def pNames : Nat → List MTok → Option (List Str)
-  | 0, _ => none
-  | _ + 1, [.name n, .sym ')'] => some [n]
-  | f + 1, .name n :: .sym ',' :: r => (pNames f r).map (n :: ·)
-  | _ + 1, _ => none
+/-- the source of `${…}` -/
+def readXExpr (strict : Bool) (s : Str) : Option XExpr := do
+  let toks ← tokenize s
+  readXToks strict toks
+
+/-- `a, b, c='x')` at the end of the value of `def`: parameters, the last ones with defaults
+    (`dflt`: a default was seen — the signature is parsed as a call, so a bare name behind a
+    `name=default` is a syntax error) -/
+def pParams : Nat → Bool → Bool → List MTok → Option (List Param)
+  | 0, _, _, _ => none
+  | f + 1, st, _, .name n :: .sym '=' :: toks =>
+      match pExpr (2 * toks.length + 2) st toks with
+      | some (e, [.sym ')']) => some [(n, some e)]
+      | some (e, .sym ',' :: r) =>
+          match pParams f st true r with
+          | some ps => some ((n, some e) :: ps)
+          | none => none
+      | _ => none
+  | _ + 1, _, dflt, [.name n, .sym ')'] => if dflt then none else some [(n, none)]
+  | f + 1, st, dflt, .name n :: .sym ',' :: r =>
+      if dflt then none else (pParams f st false r).map ((n, none) :: ·)
+  | _ + 1, _, _, _ => none
 
 def pBinds : Nat → Bool → List MTok → Option (List (Name × Expr))
   | 0, _, _ => none
@@ -212,13 +238,12 @@ def pBinds : Nat → Bool → List MTok → Option (List (Name × Expr))
 def optExpr (strict : Bool) (toks : List MTok) : Option (Option Expr) :=
   if toks.isEmpty then some none else (readExprToks strict toks).map some
 
-/-- the directive a text template builds from `{% cmd value %}` / `#cmd value` -/
-def readDir (strict : Bool) (cmd : Str) (val : Str) : Option Dir := do
-  let toks ← tokenize val
+/-- the directive a text template builds from the command and the tokens of the value -/
+def readDirToks (strict : Bool) (cmd : Str) (toks : List MTok) : Option Dir :=
   if cmd = ['d', 'e', 'f'] then
     match toks with
     | [.name f] => some (.def_ f [])
-    | .name f :: .sym '(' :: r => (pNames (r.length + 1) r).map (.def_ f)
+    | .name f :: .sym '(' :: r => (pParams (r.length + 1) strict false r).map (.def_ f)
     | _ => none
   else if cmd = ['f', 'o', 'r'] then
     match toks with
@@ -230,6 +255,11 @@ def readDir (strict : Bool) (cmd : Str) (val : Str) : Option Dir := do
   else if cmd = ['o', 't', 'h', 'e', 'r', 'w', 'i', 's', 'e'] then (if toks.isEmpty then some .otherwise else none)
   else if cmd = ['w', 'i', 't', 'h'] then (pBinds (toks.length + 1) strict toks).map .with_
   else none
+
+/-- the directive a text template builds from `{% cmd value %}` / `#cmd value` -/
+def readDir (strict : Bool) (cmd : Str) (val : Str) : Option Dir := do
+  let toks ← tokenize val
+  readDirToks strict cmd toks
 
 /-! ### source text -> tokens of `textParse` -/
 
